@@ -293,7 +293,7 @@ def run(out, tier, seed, model_ok):
                     probs.append("files in the output directory: %r, expected %r" % (files, sorted(exp_files)))
                 if fmt != "markdown" and os.path.exists(html):
                     try:
-                        srcs = [dict(nn[2]).get("src") for _c, nn in HO.walk(HO.parse(open(html, encoding="utf-8").read())) if nn[0] == "el" and nn[1] == "img"]
+                        srcs = [dict(nn[2]).get("src") for _c, nn in HO.walk(HO.parse(open(html, "rb").read().decode("utf-8"))) if nn[0] == "el" and nn[1] == "img"]
                         if srcs != ["%d.%s" % (k + 1, ct.partition("/")[2]) for k, (ct, b) in enumerate(seen)]:
                             probs.append("img src values %r do not name the image files in document order" % srcs)
                     except HO.Malformed:
